@@ -54,9 +54,12 @@ REFACTORS = [
        "        self.qa = self.tdc.broadcast(  # type: ignore\n"
        "            self.qa,\n            src=src,\n            group=group,\n"
        "        )", 1)], TRAIN),
-    ('get_cov_divides_after_product',
-     [('kfac/layers/utils.py', 'cov_a = a.t() @ (a / scale)',
-       'cov_a = (a.t() @ a) / scale', 1)], TRAIN),
+    # ('get_cov_divides_after_product' and 'inplace_factor_ema' used to be
+    #  listed here. Both turned out NOT to preserve behaviour once the
+    #  explored domain grew - the first overflows with float16 factors, the
+    #  second writes into a checkpoint object that was loaded - and sub-agents
+    #  independently submitted both as defects (seeded C04f/C10f, C09b/C05e/
+    #  C04g). They are mutants now: tools/mutants.py.)
     ('await_factor_allreduce_in_hook',
      [('kfac/layers/base.py',
        "            group=group,\n        )\n\n    def reduce_g_factor",
@@ -64,13 +67,6 @@ REFACTORS = [
        "        if self.allreduce_method == AllreduceMethod.ALLREDUCE:\n"
        "            _ = self.a_factor  # bucketed futures resolve at flush\n"
        "\n    def reduce_g_factor", 1)], TRAIN),
-    ('inplace_factor_ema',
-     [('kfac/layers/base.py',
-       'self.a_factor = (alpha * self.a_factor) + ((1 - alpha) * a_new)',
-       'self.a_factor.mul_(alpha).add_((1 - alpha) * a_new)', 1),
-      ('kfac/layers/base.py',
-       'self.g_factor = (alpha * self.g_factor) + ((1 - alpha) * g_new)',
-       'self.g_factor.mul_(alpha).add_((1 - alpha) * g_new)', 1)], TRAIN),
     ('tracing_uses_fsum',
      [('kfac/tracing.py', 'out[fname] = sum(times)',
        'out[fname] = __import__("math").fsum(times)', 1)], ['C20']),
